@@ -20,7 +20,7 @@ REQUIRED = [
     "fact_get_reads_timestamp_first", "fact_check_order", "fact_add_deletes_previous", "fact_expiry_comparisons",
     "fact_update_service_shape", "fact_restart_after_wipe", "fact_service_writers_locked", "fact_loops_visit_everything",
     "fact_comparisons_exact", "fact_exists_key", "fact_background_jobs", "fact_wiring", "fact_store_guards_credential_id",
-    "credential_without_id_refused", "fact_set_timestamp_unconditional", "overlapping_polls_heal", "overlapping_polls_can_diverge", "overlapping_poll_across_wipe_diverges",
+    "credential_without_id_refused", "fact_set_timestamp_unconditional", "overlapping_polls_heal", "overlapping_polls_can_diverge", "overlapping_poll_across_wipe_diverges", "fact_start_keeps_service_records", "restart_is_identity",
 ]
 
 
@@ -305,6 +305,8 @@ def run(ctx):
         else:
             if S != pS and kind != "pollB":
                 report("C16:client-op-changed-server", f"{kind} changed the server list", i)
+        if kind in ("restartS", "restartC") and prev and (S != prev["S"] or C != prev["C"]):
+            report("C16:restart-changed-persistent-state", f"{kind}: the node came back with another list / seed / timestamp / replica than it went down with", i)
         if kind == "purge" and prev and C != prev["C"]:
             report("C16:purge-removed-unrevoked-entry", "removeRevoked changed the replica although nothing is revoked", i)
         if kind in ("noise", "cnoise", "verifier", "purge", "validate") and prev:
